@@ -42,7 +42,113 @@ class C05(SessionCheck):
         d['gen_tables'] = {'Gen/Profiles.lean': len(getattr(self, '_profiles', []))}
         return d
 
+    def e2e_cases(self, rng, tier):
+        # the public entry points manager.connect_uds / connect_tls / connect_ssh with user-supplied extra capabilities (nc_params),
+        # every profile on the Unix transport, a rotating subset on TLS and SSH; server with and without base:1.1
+        out = []
+        profs = list(SG.PROFILES)
+        for i, pf in enumerate(profs):
+            trs = ['unix'] + ([['tls', 'ssh'][i % 2]] if (tier == 'thorough' or i % 5 == 0) else [])
+            for tr in trs:
+                extras = [['urn:example:extra:1.0'], ['urn:example:extra:1.0', 'urn:example:other:2.0?x=1'], []][(i + len(tr)) % 3]
+                out.append({'kind': 'connect', 'sc': {'transport': tr, 'profile': pf, 'extras': extras, 'server11': (i % 3 != 1)}})
+        return out
+
+    def run_impl(self, case):
+        if case.get('kind') != 'connect':
+            return SessionCheck.run_impl(self, case)
+        from impl import e2e, fakeserver as FS
+        sc = case['sc']
+        self.stats['connect_e2e'] = self.stats.get('connect_e2e', 0) + 1
+        caps = [c for c in FS.STD_CAPS if sc['server11'] or c != B11]
+        srv = e2e.make_server(dict(sc, server_caps=caps), None)
+        res = {'connect': 'ok', 'transport': sc['transport']}
+        m = None
+        try:
+            kw = {'nc_params': {'capabilities': list(sc['extras'])}} if sc['extras'] else {}
+            m = e2e.connect(srv, sc, timeout=5, **kw)
+            res['client_caps'] = list(m.client_capabilities)
+            res['server_caps'] = list(m.server_capabilities)
+            res['sid'] = m.session_id
+            m.async_mode = True
+            from ncclient.xml_ import new_ele
+            m.dispatch(new_ele('get'))
+            import time
+            t0 = time.time()
+            while len(srv.requests) < 1 and time.time() - t0 < 3:
+                time.sleep(0.01)
+            res['rx'] = bytes(srv.rx).hex()
+            res['hello'] = srv.client_hello
+        except Exception as e:
+            res['connect'] = 'exc:' + type(e).__name__ + ':' + str(e)[:80]
+        finally:
+            try:
+                if m is not None:
+                    m._session.close()
+            except Exception:
+                pass
+            srv.close()
+            srv.cleanup()
+        res['srv_caps_sent'] = caps
+        return res
+
+    def model_lines(self, case):
+        if case.get('kind') == 'connect':
+            return []
+        return SessionCheck.model_lines(self, case)
+
+    def model_obs(self, case, outs):
+        if case.get('kind') == 'connect':
+            return None
+        return SessionCheck.model_obs(self, case, outs)
+
+    def compare(self, case, io, mo):
+        if case.get('kind') == 'connect':
+            return None
+        return SessionCheck.compare(self, case, io, mo)
+
+    def nontrivial(self, case, io):
+        if case.get('kind') == 'connect':
+            return io.get('connect') == 'ok'
+        return SessionCheck.nontrivial(self, case, io)
+
+    def oracle_connect(self, case, io):
+        sc = case['sc']
+        tag = '%s/%s' % (sc['transport'], sc['profile'])
+        if io['connect'] != 'ok':
+            return ('C05:e2e-connect', 'connect over %s failed: %s' % (tag, io['connect']))
+        ccaps = io['client_caps']
+        prof = next((p for p in getattr(self, '_profiles', []) if p['name'] == sc['profile']), None)
+        if not (set(ccaps) & BASE_URIS):
+            return ('C05:no-base-capability@' + sc['profile'], 'client capabilities contain no base URI (%s)' % tag)
+        if sc['profile'] == 'default' and ccaps != DOC_DEFAULT + sc['extras']:
+            return ('C05:default-capabilities', 'default profile over %s with extras %r advertises %r' % (sc['transport'], sc['extras'], ccaps))
+        if prof and prof['uses'] and ccaps != prof['prefix'] + sc['extras'] + prof['suffix']:
+            return ('C05:user-capabilities', '%s: manager reports %r, expected the profile list with the user additions %r' % (tag, ccaps, sc['extras']))
+        try:
+            root = ET.fromstring(io['hello'])
+        except Exception as e:
+            return ('C05:hello-malformed', '%s: first frame is not well-formed XML: %r' % (tag, e))
+        w = bytes.fromhex(io['rx'])
+        if w[:2] == b'\n#' or w.find(DELIM10) < 0:
+            return ('C05:hello-not-eom-framed', '%s: the client <hello> was not sent in end-of-message framing: %r' % (tag, w[:24]))
+        sent = [c.text for c in root.iter() if c.tag.endswith('capability')]
+        if sent != ccaps:
+            return ('C05:hello-capabilities', '%s: <hello> lists %r, manager reports %r' % (tag, sent, ccaps))
+        rest = w[w.find(DELIM10) + len(DELIM10):]
+        want11 = sc['server11'] and (B11 in ccaps)
+        payloads, status = (decode11 if want11 else decode10)(rest)
+        if status.startswith('bad') or not payloads:
+            return ('C05:post-hello-framing', '%s: the request after the hello is not in %s framing: %r' % (tag, '1.1' if want11 else '1.0', rest[:40]))
+        if list(io['server_caps']) != list(dict.fromkeys(io['srv_caps_sent'])):
+            return ('C05:server-capabilities', '%s: server_capabilities %r, server sent %r' % (tag, io['server_caps'], io['srv_caps_sent']))
+        if str(io['sid']) != '4711':
+            return ('C05:session-id', '%s: session_id %r, server said 4711' % (tag, io['sid']))
+        return None
+
     def oracle(self, case, io):
+        if case.get('kind') == 'connect':
+            return self.oracle_connect(case, io)
         info = case.get('info') or {}
         obs = io['obs']
         if not obs:
